@@ -4,5 +4,6 @@ namespace app {
 // minimise `p` while a violation with signature `sig` ("Cxx/oracle") persists; writes the replay file
 int shrink_main(const Plan& p, const std::string& sig, const std::string& out, int budget);
 bool plan_from_replay(const std::string& text, Plan& out, std::string* err);
+std::vector<Violation> run_diff(const Plan& base, Sim** keep, std::string* detail);
 std::string replay_to_json(const Plan& p, const Violation& v, uint64_t trace_hash, int reruns, size_t orig_steps);
 }
